@@ -19,6 +19,25 @@ fn case_of(b: &[u8]) -> Value {
     bytes_case(b)
 }
 
+/// `== &str` must be false for every string that is not exactly the canonical text: padded
+/// with NUL / space / a separator, truncated, or extended
+fn near_text_probes<T>(l: &T, canon: &str, bad: &mut Vec<String>)
+where
+    T: for<'a> PartialEq<&'a str>,
+{
+    let mut probes: Vec<String> = vec![format!("{canon}\0"), format!("\0{canon}"), format!("{canon} "), format!(" {canon}"), format!("{canon}-"), format!("{canon}a"), format!("{canon}\0\0\0\0")];
+    if canon.len() > 1 {
+        probes.push(canon[..canon.len() - 1].to_string());
+        probes.push(canon[1..].to_string());
+    }
+    probes.push(String::new());
+    for p in probes {
+        if p != canon && *l == p.as_str() {
+            bad.push(format!("== {p:?} is true"));
+        }
+    }
+}
+
 /// `random` = Some(maxlen): the case does not come from an enumeration; it is counted as
 /// non-trivial only if it lies outside every exhaustively enumerated sub-space.
 pub fn check(b: &[u8], st: &mut Stats, random: Option<u32>) {
@@ -53,6 +72,7 @@ pub fn check(b: &[u8], st: &mut Stats, random: Option<u32>) {
                     if !(l == low.as_str()) {
                         bad.push("== &str of canonical text is false".into());
                     }
+                    near_text_probes(&l, &low, &mut bad);
                     if l.is_empty() != is_und {
                         bad.push(format!("is_empty={} for {:?}", l.is_empty(), low));
                     }
@@ -83,6 +103,18 @@ pub fn check(b: &[u8], st: &mut Stats, random: Option<u32>) {
             }
         }
     }
+    // TryFrom<Option<&str>> is a second parsing entry point of Language: same verdict
+    if let Ok(sx) = std::str::from_utf8(b) {
+        let exp = model::is_language(b);
+        match guard(|| Language::try_from(Some(sx))) {
+            Err(p) => st.fail(format!("language-tryfrom:{}", panic_sig(&p)), case_of(b), b.len(), format!("panic {p:?}")),
+            Ok(r) => {
+                if r.is_ok() != exp {
+                    st.fail(format!("language-tryfrom:{}:len{}", if exp { "rejects-wellformed" } else { "accepts-illformed" }, b.len()), case_of(b), b.len(), format!("Language::try_from(Some(..)) -> {:?}, reference says well-formed={exp}", r.as_ref().map(|l| l.as_str())));
+                }
+            }
+        }
+    }
     // ---- Script
     {
         let exp = model::is_script(b);
@@ -109,6 +141,7 @@ pub fn check(b: &[u8], st: &mut Stats, random: Option<u32>) {
                     if !(l == t.as_str()) {
                         bad.push("== &str of canonical text is false".into());
                     }
+                    near_text_probes(&l, &t, &mut bad);
                     let s2: &str = (&l).into();
                     if s2 != t {
                         bad.push("Into<&str> differs".into());
@@ -155,6 +188,7 @@ pub fn check(b: &[u8], st: &mut Stats, random: Option<u32>) {
                     if !(l == t.as_str()) {
                         bad.push("== &str of canonical text is false".into());
                     }
+                    near_text_probes(&l, &t, &mut bad);
                     let s2: &str = (&l).into();
                     if s2 != t {
                         bad.push("Into<&str> differs".into());
@@ -200,6 +234,10 @@ pub fn check(b: &[u8], st: &mut Stats, random: Option<u32>) {
                     }
                     if !(l == t.as_str()) || !(l == *t.as_str()) {
                         bad.push("== &str / == str of canonical text is false".into());
+                    }
+                    near_text_probes(&l, &t, &mut bad);
+                    if l == *format!("{t}\0").as_str() || l == *format!("{t} ").as_str() {
+                        bad.push("== str of padded text is true".into());
                     }
                     let up = model::upper(b);
                     if up != t && l == up.as_str() {
